@@ -68,9 +68,9 @@ PROPS = {
         'per_harness': {r'c03_load_\w+': {'unwindset': 'memcmp.0:40'}},
         'cap': {'quick': 400, 'thorough': 1200},
         'functions': ['datalog::origin::TrustedOrigins::{default,from_scopes,contains}', 'datalog::origin::Origin::{insert,is_superset}', 'token::builder::authorizer::load_and_translate_block (block-level scopes)', 'token::builder::Scope::{convert,convert_from}', 'token::public_keys::PublicKeys::{insert,get_key}'],
-        'bounds': 'scope lists of length 0..3 over {authority, previous, key 0..2}; current block in 0..=5 or the authorizer; 3 keys signing 1, 2 and 0 blocks (ids 1..=5, symbolic); '
-                  'probe origins of one and two block ids; unwind 9',
-        'out': 'the end-to-end comparison authorize(token) vs authorize(token + block); provenance of rule application (Rule::apply) and the visibility filter; loading of blocks into the authorizer',
+        'bounds': 'scope lists of length 0..3 (thorough: 4) over {authority, previous, key 0..2}; current block in 0..=5 or the authorizer; 3 keys signing 1, 2 and 0 blocks (ids 1..=5, symbolic); '
+                  'probe origins of one and two block ids; unwind 9; loading of a first-party and of a third-party block that carries one block-level key scope, three distinct symbolic key objects',
+        'out': 'the end-to-end comparison authorize(token) vs authorize(token + block); provenance of rule application (Rule::apply) and the visibility filter; loading of facts, rules and checks of a block (symbol translation: strings)',
         'level_text': 'Kernel lemma of the attenuation argument: bounded symbolic execution of the trust computation against an independent bit-mask specification; the composition to whole authorizations is an argument in DESIGN.md, not a solver result.',
     },
     'C10': {
@@ -78,10 +78,10 @@ PROPS = {
         'quick': [r'c10_\w+'],
         'thorough': [],
         'cap': {'quick': 400, 'thorough': 1200},
-        'functions': ['token::authorizer::Authorizer::{run,authorize,authorize_with_limits,authorize_inner}', 'time::Instant arithmetic'],
-        'bounds': 'empty authorizer (no facts, rules, checks, policies); iterations spent, iteration/fact budgets: any u64; time budget and time spent: any Duration; clock: arbitrary non-decreasing instants',
+        'functions': ['token::authorizer::Authorizer::{run,authorize,authorize_with_limits,authorize_inner}', 'datalog::World::run_with_limits (rule-free store)', 'time::Instant arithmetic'],
+        'bounds': 'empty authorizer (no facts, rules, checks, policies); iterations spent, iteration/fact budgets: any u64; time budget and time spent: any Duration; clock: arbitrary non-decreasing instants; World::run_with_limits on a store of two facts and no rule for every limit triple',
         'stubs': ['crate::time::Instant::now (arbitrary non-decreasing instants)', 'alloc::fmt::format'],
-        'out': 'accounting inside World::run_with_limits on non-empty programs, promptness, fact budget on growth',
+        'out': 'accounting inside World::run_with_limits when rules fire (needs Rule::apply), query / query_all (builder rules: strings), promptness',
     },
     'C01': {
         'crate': 'biscuit-auth',
@@ -117,9 +117,9 @@ PROPS = {
         'cap': {'quick': 600, 'thorough': 1800},
         'per_harness': {r'c0[1278]_\w+': {'unwindset': 'memcmp.0:200'}},
         'functions': ['format::SerializedBiscuit::{seal,append_serialized,verify_inner}', 'token::third_party::ThirdPartyRequest::from_container', 'crypto::TokenNext::{keypair,is_sealed}'],
-        'bounds': 'sealed containers of 1..2 blocks: every extension (append, re-seal, third-party request, key pair extraction) is refused before anything is signed; seal keeps blocks, signatures and root key id; a sealed token verifies only if the final signature was accepted under the last next key over (payload, algorithm, next key, signature) of the last block',
+        'bounds': 'sealed containers of 1..2 blocks, and sealed Biscuit / UnverifiedBiscuit objects of 2 blocks: every extension (append, re-seal, third-party request, key pair extraction) is refused before anything is signed; seal keeps blocks, signatures and root key id; a sealed token verifies only if the final signature was accepted under the last next key over (payload, algorithm, next key, signature) of the last block',
         'stubs': ['signature oracle', 'alloc::fmt::format'],
-        'out': '"authorizes exactly like the unsealed one" end to end; serialization round trips; Biscuit/UnverifiedBiscuit wrappers around the container (token/mod.rs, token/unverified.rs)',
+        'out': '"authorizes exactly like the unsealed one" end to end; serialization round trips; the Biscuit / UnverifiedBiscuit append paths (Datalog block builders); a successful Biscuit::seal (symbol table kept) - only the refusals of the wrappers are decided',
     },
     'C15': {
         'crate': 'biscuit-auth',
